@@ -513,6 +513,28 @@ class Folder:
                 if f[1] == 'map' and len(args) == 2 and args[0] == ('modattr', 're', 'escape') \
                         and args[1] is not UNKNOWN:
                     return [re.escape(x) for x in self.iterate(args[1])]
+                if f[1] == 'map' and len(args) == 2 and args[1] is not UNKNOWN and not kwargs \
+                        and (isinstance(args[0], Closure) or (isinstance(args[0], tuple) and args[0]
+                                                              and args[0][0] in ('modattr', 'boundattr', 'builtin'))):
+                    # map(f, iterable) with a function value the folder can apply itself
+                    fn = args[0]
+                    out = []
+                    for x in self.iterate(args[1]):
+                        if isinstance(fn, Closure):
+                            r = fn.folder.call_closure(fn, [x], {})
+                        elif fn[0] == 'modattr':
+                            r = self.call_module_attr(fn[1], fn[2], [x], {})
+                        elif fn[0] == 'boundattr':
+                            r = self.call_method(fn[1], fn[2], [x], {})
+                        else:
+                            try:
+                                r = _PURE_BUILTINS[fn[1]](x)
+                            except Exception:
+                                r = UNKNOWN
+                        if r is UNKNOWN:
+                            return UNKNOWN
+                        out.append(r)
+                    return out
                 if any(a is UNKNOWN for a in args) or any(v is UNKNOWN for v in kwargs.values()):
                     return UNKNOWN
                 try:
@@ -560,6 +582,17 @@ class Folder:
         for typ, names in _PURE_METHODS.items():
             if isinstance(base, typ) and attr in names:
                 if any(a is UNKNOWN for a in args):
+                    # a mutation with an argument the folder could not evaluate: the container is no longer known -
+                    # poison it, so that whoever consumes it sees the hole instead of a silently incomplete value
+                    try:
+                        if attr in ('append', 'insert', 'extend'):
+                            base.append(UNKNOWN)
+                        elif attr in ('add', 'update') and isinstance(base, set):
+                            base.add(UNKNOWN)
+                        elif attr in ('update', 'setdefault') and isinstance(base, dict):
+                            base[UNKNOWN] = UNKNOWN
+                    except Exception:
+                        pass
                     return UNKNOWN
                 try:
                     r = getattr(base, attr)(*args, **kwargs)
@@ -637,4 +670,11 @@ def fold_file(path, resolver=None):
         tree = ast.parse(src, filename=path)
     except SyntaxError as e:
         raise AnalysisError('cannot parse %s: %s' % (path, e))
+    # spell out look-up-binding aliases (join = ''.join; product = itertools.product) before evaluating
+    try:
+        from .canon import _inline_callable_aliases, _PlainAssign
+        _PlainAssign().visit(tree)
+        _inline_callable_aliases(tree)
+    except Exception:
+        pass
     return Folder(tree, path, resolver)
